@@ -83,6 +83,7 @@ def elabKw (k : Bytes) : EM Expr :=
   if k == bytesOf "null" then pure (.lit (.null Ty.none))
   else if k == bytesOf "true" then pure (.lit (.bool true))
   else if k == bytesOf "false" then pure (.lit (.bool false))
+  else if k == bytesOf "error" then pure .errorE          -- the last error record (Interp `Expr.errorE`, builtin_error.cpp)
   else unsup ("constant " ++ strOf k)
 
 mutual
@@ -106,7 +107,9 @@ mutual
       | some m => pure (.member m r xs)
       | none => unsup ("member " ++ strOf n)
     | .setm _ _ _ => unsup "member set@"
-    | .item _ _ => unsup "item @"
+    | .item e no => do
+      let r ← elabExpr e
+      pure (.item r no)
     | .un op _ x => do
       let a ← elabExpr x
       pure (.un (unOp op) a)
